@@ -76,6 +76,7 @@ impl C18 {
             (true, 1) => "bottom-aligned MultiProgress: a finished, b finished-and-cleared, c live".into(),
             (true, 2) => "three-bar MultiProgress whose middle bar was dropped (deferred zombie)".into(),
             (true, 4) => "MultiProgress that was hidden while a member printed a line, then given the terminal".into(),
+            (true, 5) => "three-bar MultiProgress with set_move_cursor(true)".into(),
             (true, _) => "bottom-aligned three-bar MultiProgress".into(),
         }
     }
@@ -89,6 +90,9 @@ impl C18 {
             let mp = if self.root == 4 { MultiProgress::with_draw_target(ProgressDrawTarget::hidden()) } else { MultiProgress::with_draw_target(ProgressDrawTarget::term_like(spy.boxed())) };
             if self.root == 1 || self.root == 3 {
                 mp.set_alignment(indicatif::MultiProgressAlignment::Bottom);
+            }
+            if self.root == 5 {
+                mp.set_move_cursor(true);
             }
             let a = mp.add(mk(ProgressDrawTarget::hidden()).with_prefix("a"));
             let b = mp.add(mk(ProgressDrawTarget::hidden()).with_prefix("b"));
@@ -353,7 +357,7 @@ impl Hist for C18 {
 fn configs(tier: Tier) -> Vec<(C18, usize)> {
     let d = if tier == Tier::Quick { 3 } else { 4 };
     let d2 = if tier == Tier::Quick { 2 } else { 3 };
-    vec![(C18 { multi: false, root: 0 }, d + 1), (C18 { multi: true, root: 0 }, d), (C18 { multi: true, root: 1 }, d2), (C18 { multi: true, root: 2 }, d2), (C18 { multi: true, root: 3 }, d2), (C18 { multi: true, root: 4 }, d2)]
+    vec![(C18 { multi: false, root: 0 }, d + 1), (C18 { multi: true, root: 0 }, d), (C18 { multi: true, root: 1 }, d2), (C18 { multi: true, root: 2 }, d2), (C18 { multi: true, root: 3 }, d2), (C18 { multi: true, root: 4 }, d2), (C18 { multi: true, root: 5 }, d2)]
 }
 
 fn long_case(multi: bool, hz: Option<u8>, k: usize, op: u8, n: usize, hist: &[String]) -> Option<(String, String)> {
